@@ -184,7 +184,7 @@ def run_split(ctx, g):
             if all(not t["notes"] and t["dur"] == 0 for t in tr):
                 continue
             cases.append((len(cases), tr, mi, rng.random() < .5))
-    if ctx.thorough and not ctx.replay:
+    if ctx.fixtures and not ctx.replay:
         from harness import fixtures
         sl = fixtures.slices("quantised")
         for a, b in zip(sl, sl[1:]):
